@@ -27,6 +27,9 @@ Proof.
   assert (H64 : j * w < 2 ^ 64).
   { assert (2 ^ 61 < 2 ^ 64) by (apply N.pow_lt_mono_r; lia). nia. }
   rewrite (wrap_small 64) by exact H64.
+  destruct (table_data_some (arr_enc e w) w (arr_enc_len e w) s es j a HI HC Hn Hw) as [b Eb].
+  assert (Hm : forall (A : Type) (x y : A), match s_data s with Some _ => x | None => y end = x) by (intros; now rewrite Eb).
+  rewrite Hm.
   unfold rd_word. rewrite N2Nat.id.
   rewrite (table_read (arr_enc e w) w (arr_enc_len e w) s es j a HI HC Hn). cbn [bind].
   unfold arr_enc. rewrite dec_enc_uint, N2Nat.id, pow256.
